@@ -30,6 +30,14 @@ Theorem sweep_sound : forall st s,
 Proof. exact sweep_sound_l. Qed.
 Print Assumptions sweep_sound.
 
+(* the interval task that carries the sweep: do_circuits first tries to meet the node's own demand for
+   circuits (build_tunnels); for every number of rounds and every answer of create_circuit the call of
+   do_remove at its end is reached - a demand that cannot be met never starves the sweep.  (The control
+   skeleton of do_circuits is translated from the source: gen/G09_rules.v, dc_inner_body / dc_outer_body.) *)
+Theorem sweep_task_always_sweeps : forall ds, do_circuits_sweeps ds = true.
+Proof. exact do_circuits_sweeps_l. Qed.
+Print Assumptions sweep_task_always_sweeps.
+
 (* ... i.e. an entry is scheduled for removal by the sweep iff one of the conditions holds for it. *)
 Theorem sweep_schedules_iff : forall st s cid dd rn,
   (In (DRemove KCirc cid dd rn) (sweep_spec st s) <->
